@@ -3,14 +3,19 @@ C02 — the exact marginal log likelihood and the leave-one-out objective equal 
 
 Statements are about the definitions of `GPVerif/Model/MLL.lean` executed by `drivers/C02.lean`.
 
-Not a theorem here: *gradients*.  Jacobi's formula / the derivative of the matrix inverse along a
-hyperparameter are not available in this Mathlib, so the gradient clause of the property is decided by the
-correspondence only (autograd of the implementation vs autograd of an independent dense re-expression vs
-central finite differences; `docs/C02.md`).
+*Gradients* (wave 3): `logNormal_gradient` is the textbook formula
+`∂/∂θ log N(y | μ(θ), K(θ)) = ½ rᵀK⁻¹(∂K)K⁻¹r − ½ tr(K⁻¹∂K) + (∂μ)ᵀK⁻¹r` for EVERY entrywise-differentiable
+parameterisation (Jacobi's formula and the derivative of the matrix inverse along arbitrary curves are proved in
+`Bridge/MLLGrad.lean` from the Leibniz expansion, the resolvent identity and `Matrix.det_one_add_smul`);
+`gradParts_correct` says the driver's exact rationals are the three pieces of that formula, `mll_gradient` lifts
+it through the `(log N + priors + added)/num_data` assembly.  What stays correspondence-only: that torch autograd
+applied to the kernel / mean / prior code returns `∂K`, `∂μ` and the prior derivatives (C05 / C19 prove the
+hand-written kernel backward passes), and the gradients of the leave-one-out objective.
 -/
 import GPVerif.Model.MLL
 import GPVerif.Gen.MLLAssembly
 import GPVerif.Bridge.MLLIndex
+import GPVerif.Bridge.MLLGrad
 import Mathlib.LinearAlgebra.Matrix.Block
 import Mathlib.Algebra.BigOperators.Fin
 import Mathlib.Tactic.Ring
@@ -322,7 +327,83 @@ theorem gen_sum_mll_is_mean [Field α] (ms : List α) : sumMllExpr ms = sumMll m
 
 end generated
 
+/-! ### gradients -/
+
+section gradients
+
+/-- The driver's three gradient pieces are `rᵀA⁻¹DA⁻¹r`, `tr(A⁻¹D)` and `dμᵀA⁻¹r`. -/
+theorem gradParts_correct [Field α] [DecidableEq α] {n : Nat} (A D : DMat n n α) (r dμ : Fin n → α)
+    (p : α × α × α) (h : gradParts? A D r dμ = some p) :
+    p = (r ⬝ᵥ ((A.toMatrix⁻¹ * D.toMatrix * A.toMatrix⁻¹) *ᵥ r), (A.toMatrix⁻¹ * D.toMatrix).trace,
+          dμ ⬝ᵥ (A.toMatrix⁻¹ *ᵥ r)) := by
+  simp only [gradParts?, Option.map_eq_some_iff] at h
+  obtain ⟨X, hX, rfl⟩ := h
+  rw [← DMat.inv?_correct hX]
+  simp only [← Matrix.mulVec_mulVec, Matrix.dotProduct_mulVec]
+
+/-- **Gradient of the Gaussian log marginal likelihood w.r.t. any hyperparameter.**  If the covariance `A t`
+(invertible, `det > 0`, symmetric at `t = 0`) and the mean `μ t` are entrywise differentiable at `0` with
+derivatives `D`, `dμ`, then the derivative of `logNormal ½ log2π n (rᵀA⁻¹r) (log det A)` — the model's expression
+for `MultivariateNormal.log_prob` — is `gradAssemble ½` of the three pieces the driver computes. -/
+theorem logNormal_gradient {n : Nat} (A : ℝ → Matrix (Fin n) (Fin n) ℝ) (D : Matrix (Fin n) (Fin n) ℝ)
+    (μ : ℝ → Fin n → ℝ) (dμ y : Fin n → ℝ) (log2pi : ℝ)
+    (hA : ∀ i j, HasDerivAt (fun t => A t i j) (D i j) 0)
+    (hμ : ∀ i, HasDerivAt (fun t => μ t i) (dμ i) 0)
+    (hK : IsUnit (A 0).det) (hpos : 0 < (A 0).det) (hsymm : (A 0)ᵀ = A 0) :
+    HasDerivAt
+      (fun t : ℝ => logNormal (1 / 2 : ℝ) log2pi n ((y - μ t) ⬝ᵥ ((A t)⁻¹ *ᵥ (y - μ t)))
+        (Real.log (A t).det))
+      (gradAssemble (1 / 2 : ℝ)
+        ((y - μ 0) ⬝ᵥ (((A 0)⁻¹ * D * (A 0)⁻¹) *ᵥ (y - μ 0)), ((A 0)⁻¹ * D).trace,
+          dμ ⬝ᵥ ((A 0)⁻¹ *ᵥ (y - μ 0)))) 0 := by
+  have h := MLLGrad.hasDerivAt_logNormal_curve A D μ dμ y ((1 / 2) * ((n : ℝ) * log2pi)) hA hμ hK hpos hsymm
+  have hfun : (fun t : ℝ => logNormal (1 / 2 : ℝ) log2pi n ((y - μ t) ⬝ᵥ ((A t)⁻¹ *ᵥ (y - μ t)))
+        (Real.log (A t).det))
+      = fun t : ℝ => -(1 / 2) * ((y - μ t) ⬝ᵥ ((A t)⁻¹ *ᵥ (y - μ t)))
+        - (1 / 2) * Real.log (A t).det - (1 / 2) * ((n : ℝ) * log2pi) := by
+    funext t
+    simp only [logNormal]
+    ring
+  rw [hfun]
+  exact h.congr_deriv (by simp only [gradAssemble])
+
+/-- The objective differentiates termwise: with `g` the derivative of the Gaussian part and `p'`, `a'` those of
+the summed prior / added-loss terms, `d/dθ mll = (g + p' + a') / num_data`. -/
+theorem mll_gradient (logN p a : ℝ → ℝ) (g p' a' : ℝ) (nd : Nat)
+    (h1 : HasDerivAt logN g 0) (h2 : HasDerivAt p p' 0) (h3 : HasDerivAt a a' 0) :
+    HasDerivAt (fun t => mll (logN t) [p t] [a t] nd) ((g + p' + a') / (nd : ℝ)) 0 := by
+  have := ((h1.add h2).add h3).div_const (nd : ℝ)
+  refine (this.congr_deriv rfl).congr_of_eventuallyEq ?_
+  exact Filter.Eventually.of_forall fun t => by simp [mll]
+
+/-- the derivative in the direction of the targets: `∂/∂y log N = −K⁻¹ r` (as a pairing with `h`). -/
+theorem logNormal_gradient_targets {n : Nat} (K : Matrix (Fin n) (Fin n) ℝ) (hsymm : Kᵀ = K)
+    (r h : Fin n → ℝ) (c : ℝ) :
+    HasDerivAt (fun t : ℝ => -(1 / 2) * ((r + t • h) ⬝ᵥ (K⁻¹ *ᵥ (r + t • h))) - c)
+      (-(h ⬝ᵥ (K⁻¹ *ᵥ r))) 0 :=
+  MLLGrad.hasDerivAt_logNormal_resid K hsymm r h c
+
+end gradients
+
 /-! ### non-vacuity -/
+
+-- hypotheses of `logNormal_gradient` are satisfiable: the curve `t ↦ (1 + t) • 1`, mean `t ↦ t • 1`
+example : ∃ (A : ℝ → Matrix (Fin 2) (Fin 2) ℝ) (D : Matrix (Fin 2) (Fin 2) ℝ) (μ : ℝ → Fin 2 → ℝ) (dμ : Fin 2 → ℝ),
+    (∀ i j, HasDerivAt (fun t => A t i j) (D i j) 0) ∧ (∀ i, HasDerivAt (fun t => μ t i) (dμ i) 0) ∧
+    IsUnit (A 0).det ∧ 0 < (A 0).det ∧ (A 0)ᵀ = A 0 := by
+  refine ⟨fun t => (1 + t) • 1, 1, fun t _ => t, fun _ => 1, ?_, ?_, ?_, ?_, ?_⟩
+  · intro i j
+    have hid : HasDerivAt (fun t : ℝ => t) 1 (0 : ℝ) := hasDerivAt_id 0
+    have := (hid.const_add 1).mul_const ((1 : Matrix (Fin 2) (Fin 2) ℝ) i j)
+    simpa [Matrix.smul_apply] using this
+  · intro i; exact hasDerivAt_id 0
+  · simp
+  · simp
+  · simp
+
+-- the driver's gradient pieces on a 2×2 instance (A = [[2, ½], [½, 3]], D = 1, r = (1, −1), dμ = (0, 0))
+example : gradParts? (α := ℚ) (DMat.ofMatrix !![2, 1/2; 1/2, 3]) (DMat.ofMatrix !![1, 0; 0, 1]) ![1, -1] ![0, 0]
+    = some (296 / 529, 20 / 23, 0) := by decide +kernel
 
 -- a 2×2 SPD instance on which both certificates succeed and the LOO identities are visible
 example : looCode (α := ℚ) (k := 1) (DMat.ofMatrix !![2, 1; 1, 2]) ![1, 3] ![0, 0] 0 = some (3 / 2, 3 / 2) := by
